@@ -59,7 +59,41 @@ fn small_trees() -> Vec<RV> {
         }
     }
     t.push(t3);
+    t.push(compact_forms());
     t.into_iter().flatten().collect()
+}
+
+/// Wider, flat encodings that some standard-library types accept as their non-human-readable
+/// form (an address as a tuple of octets, a duration as a pair), alone and wrapped the way a
+/// variant or a tuple would hold them, plus the variant names of those types as atoms
+/// (seed C18-g3: serializer and deserializer disagreeing on which representation is in use).
+fn compact_forms() -> Vec<RV> {
+    let mut v = Vec::new();
+    let ints = |n: usize| -> Vec<RV> { (0..n).map(|i| RV::Int([127, 0, 0, 1, 10, 7, 255, 8][i % 8])).collect() };
+    for n in [2usize, 4, 6, 8, 16] {
+        v.push(RV::Vector(ints(n)));
+        v.push(RV::list(ints(n)));
+        for tag in ["V4", "V6", "Ok", "Included"] {
+            v.push(RV::cons(RV::sym(tag), RV::Vector(ints(n))));
+            v.push(RV::cons(RV::sym(tag), RV::list(ints(n))));
+        }
+        v.push(RV::Vector(vec![RV::Vector(ints(n)), RV::Int(8080)]));
+        v.push(RV::list(vec![RV::Vector(ints(n)), RV::Int(8080)]));
+        v.push(RV::list(vec![RV::list(ints(n)), RV::Int(8080)]));
+        v.push(RV::Bytes((0..n).map(|i| i as u8).collect()));
+    }
+    for name in ["V4", "V6", "Ok", "Err", "Unbounded", "Included", "Excluded", "secs", "start"] {
+        v.push(RV::sym(name));
+        v.push(RV::str(name));
+        v.push(RV::cons(RV::sym(name), RV::Int(5)));
+        v.push(RV::list(vec![RV::sym(name), RV::Int(5)]));
+        v.push(RV::cons(RV::sym(name), RV::str("10.0.0.7")));
+    }
+    for text in ["127.0.0.1", "::1", "10.0.0.7:8080", "1.2.3", "256.0.0.1", ""] {
+        v.push(RV::str(text));
+        v.push(RV::sym(text));
+    }
+    v
 }
 
 /// Long atoms of every text-carrying kind with multi-byte characters at every alignment: error
@@ -304,7 +338,7 @@ pub fn run(ctx: &Ctx) -> Report {
 
     if ctx.want("small-trees") {
         let trees = small_trees();
-        let sub = Sub::new("small-trees", "every value tree with at most 3 leaves built from cons cells and vectors over 16 atoms (one per kind, strings and symbols equal to variant / field names, a negative, a huge and a fractional number) x every type of the family: no panic; an error is a Data-category error; an accepted value re-serializes to something that reads back as the same Rust value; non-trivial = accepted", &format!("{} values x {} types", trees.len(), nt));
+        let sub = Sub::new("small-trees", "every value tree with at most 3 leaves built from cons cells and vectors over 16 atoms (one per kind, strings and symbols equal to variant / field names, a negative, a huge and a fractional number), plus flat sequences of 2..16 small integers alone / tagged / paired with a port number and textual addresses, x every type of the family: no panic; an error is a Data-category error; an accepted value re-serializes to something that reads back as the same Rust value; non-trivial = accepted", &format!("{} values x {} types", trees.len(), nt));
         let accs = par_ranks(trees.len() as u64 * nt, |rank, acc| {
             let v = &trees[(rank / nt) as usize];
             let t = (rank % nt) as usize;
